@@ -89,6 +89,9 @@ type runner struct {
 	perInstCompile bool
 	// instSubset, when set, gives each instance (= each compilation) its own selection
 	instSubset []map[string]bool
+	// noFactory: these instances are compiled with NO listener factory in the context at all (the others
+	// with one): their functions report nothing, the listened functions they call report as ever
+	noFactory map[int]bool
 	w          *plan.World
 	insts      []*plan.Inst
 	mods       []api.Module
@@ -116,7 +119,7 @@ func (r *runner) listens(in *plan.Inst, name string) bool {
 	if !r.listen || strings.Contains(name, ".rec") {
 		return false
 	}
-	if in != nil && r.instSubset != nil {
+	if in != nil && (r.instSubset != nil || r.noFactory != nil) {
 		for i, x := range r.insts {
 			if x == in {
 				return r.listensIdx(i, name)
@@ -131,7 +134,7 @@ func (r *runner) listens(in *plan.Inst, name string) bool {
 
 // listensIdx: the selection used when instance idx was compiled.
 func (r *runner) listensIdx(idx int, name string) bool {
-	if !r.listen || strings.Contains(name, ".rec") {
+	if !r.listen || strings.Contains(name, ".rec") || r.noFactory[idx] {
 		return false
 	}
 	if r.instSubset != nil && idx >= 0 && idx < len(r.instSubset) && r.instSubset[idx] != nil {
@@ -441,11 +444,14 @@ func (r *runner) setup(plans []*plan.Plan, names []string, imports []int) {
 	for i, p := range plans {
 		cm := compiled[p]
 		ictx := cctx
-		if r.listen && (r.instSubset != nil || r.perInstCompile) {
+		if r.listen && (r.instSubset != nil || r.perInstCompile || r.noFactory != nil) {
 			// one compilation per instance, each with its own listener selection (or the SAME selection but
 			// its own listener objects: perInstCompile)
 			cm = nil
 			ictx = experimental.WithFunctionListenerFactory(r.ctx, r.factory(i))
+			if r.noFactory[i] {
+				ictx = r.ctx
+			}
 		}
 		if cm == nil {
 			cm, err = r.rt.CompileModule(ictx, r.enc(p))
